@@ -54,6 +54,8 @@ var Corpus = map[string][]string{
 		"a.b.c = 1\na.b.d = {x = 1, y = [\"s\"]}\ne = 1.5\nf = true\ng = 0x1F\nh = inf\ni = \"\"\"multi\nline\"\"\"\n",
 		"[a]\n[a.b]\n[a]\n", "x = 1\nx = 2\n", "", "# c\n", "k = [ {a = 1}, {a = 2} ]\n", "d = 1979-05-27\nt = 07:32:00\n",
 		"[[a]]\n[[a.b]]\nc = 1\n[[a.b]]\nc = 2\n[[a]]\n[[a.b]]\nc = 3\n", "= 1\n", "a = [1, \"s\"]\n", "a = \n",
+		// headers without content, also as the very last thing of the input
+		"[[a]]", "x = 1\n[[a]]\nb = 1\n[[a]]", "[t]", "[[a]]\n[[a]]\n[b]\n[[c]]\n", "[a]\nx = 1\n[[a.l]]\n[[a.l]]",
 	},
 	"csv": {
 		"name,age,note\nann,30,\"x, y\"\nbob,,\"multi\nline\"\n",
@@ -116,8 +118,16 @@ func InputText(r *rand.Rand, format, repo string) string {
 	switch r.IntN(10) {
 	case 0, 1, 2: // valid
 		return s
-	case 3: // truncated
+	case 3: // truncated: anywhere, at the end of a line, or just the final newline gone
 		if len(s) > 0 {
+			switch r.IntN(3) {
+			case 0:
+				return strings.TrimRight(s, "\n")
+			case 1:
+				lines := strings.SplitAfter(s, "\n")
+				k := 1 + r.IntN(len(lines))
+				return strings.TrimRight(strings.Join(lines[:k], ""), "\n")
+			}
 			return s[:r.IntN(len(s))]
 		}
 		return s
